@@ -15,7 +15,8 @@ EXTENDS OTR, Json
 CONSTANTS
   Pol,          \* party -> policy record
   Ver0,         \* party -> initial version (0 = negotiate)
-  Setup,        \* "none" | "ake": with "ake" a handshake started by A's query runs first
+  Prelude,      \* sequence of steps executed first, deterministically (set-up / start pattern)
+  PreludeDrain, \* TRUE: after the prelude deliver alternately until the network is quiet
   MaxSend,      \* user texts per party
   MaxFlight,    \* at most this many messages in flight per direction when a user sends
   MaxTick, MaxEnd, MaxQuery, MaxExtra,  \* budgets (total over both parties)
@@ -32,6 +33,12 @@ VARIABLES
   net,       \* party -> sequence of messages addressed to it
   nx,        \* party -> number of DH secrets drawn
   nt,        \* texts handed to Send so far
+  nsend,     \* party -> user sends after the prelude
+  pc,        \* position in the prelude
+  used,      \* party -> receiving MAC keys that verified an accepted message
+  disclosedEver, \* party -> MAC keys disclosed in emitted messages
+  leaks,     \* number of user texts emitted in clear although encryption was due
+  txlog,     \* <<text, resent>> of every data message emitted that carries a user text
   phase,     \* "setup" | "free"
   budget,    \* record of remaining budgets
   delivered, \* party -> sequence of <<text, flaggedUnencrypted>> returned by Receive
@@ -40,8 +47,8 @@ VARIABLES
   evlog,     \* party -> sequence of security events
   path       \* schedule (history, not part of the fingerprint)
 
-vars == <<st, net, nx, nt, phase, budget, delivered, accepted, rejects, evlog, path>>
-view == <<st, net, nx, nt, phase, budget, delivered, accepted, rejects, evlog>>
+vars == <<st, net, nx, nt, nsend, pc, phase, budget, delivered, accepted, rejects, evlog, used, disclosedEver, leaks, txlog, path>>
+view == <<st, net, nx, nt, nsend, pc, phase, budget, delivered, accepted, rejects, evlog, used, disclosedEver, leaks, txlog>>
 
 FreshId(p) == Base(p) + nx[p] + 1
 Uses(s, id) == s.ax = id \/ s.cur = id
@@ -53,7 +60,13 @@ Init ==
   /\ net = [p \in Parties |-> <<>>]
   /\ nx = [p \in Parties |-> 0]
   /\ nt = 0
-  /\ phase = IF Setup = "ake" THEN "setup" ELSE "free"
+  /\ nsend = [p \in Parties |-> 0]
+  /\ pc = 1
+  /\ used = [p \in Parties |-> {}]
+  /\ disclosedEver = [p \in Parties |-> {}]
+  /\ leaks = 0
+  /\ txlog = <<>>
+  /\ phase = IF Prelude # <<>> \/ PreludeDrain THEN "setup" ELSE "free"
   /\ budget = [tick |-> MaxTick, end |-> MaxEnd, query |-> MaxQuery, extra |-> MaxExtra, dup |-> MaxDup, drop |-> MaxDrop]
   /\ delivered = [p \in Parties |-> <<>>]
   /\ accepted = [p \in Parties |-> <<>>]
@@ -67,7 +80,12 @@ Effect(p, r, step, own) ==
   /\ net' = [net EXCEPT ![p] = own, ![Other(p)] = @ \o r.out]
   /\ nx' = [nx EXCEPT ![p] = IF Uses(r.s, FreshId(p)) /\ ~Uses(st[p], FreshId(p)) THEN @ + 1 ELSE @]
   /\ evlog' = [evlog EXCEPT ![p] = @ \o SecEvents(r.evs)]
-  /\ path' = Append(path, step)
+  /\ disclosedEver' = [disclosedEver EXCEPT ![p] = @ \cup UNION {r.out[i].discl : i \in {j \in DOMAIN r.out : r.out[j].t = "D"}}]
+  /\ leaks' = leaks + Cardinality({i \in DOMAIN r.out : r.out[i].t = "P" /\ r.out[i].text # NoText /\
+                       (step.a # "Send" \/ st[p].ms \in {"enc", "fin"} \/ st[p].pol.req)})
+  /\ txlog' = txlog \o [i \in 1..Len(SelectSeq(r.out, LAMBDA m : m.t = "D" /\ m.text # NoText)) |->
+                        LET m == SelectSeq(r.out, LAMBDA mm : mm.t = "D" /\ mm.text # NoText)[i] IN <<m.text, m.rs>>]
+  /\ path' = IF Export THEN Append(path, step) ELSE path
 
 Unflagged(r) == ~\E i \in DOMAIN r.evs : r.evs[i] = "msg:ReceivedMessageUnencrypted"
 
@@ -75,10 +93,14 @@ DeliverMsg(p, m, own, idx, label) ==
   \E hi \in (IF m.t = "DHC" /\ st[p].auth = "awDHKey" THEN BOOLEAN ELSE {FALSE}) :
     LET r == ReceiveFrags(st[p], m, 1, FreshId(p), hi)
     IN /\ Effect(p, r, [a |-> label, p |-> p, i |-> idx, hi |-> hi], own)
+       /\ used' = [used EXCEPT ![p] = IF m.t = "D" /\ st[p].ms = "enc" /\ ~r.err /\ m.mac[1] # 0
+                                         /\ <<m.rkid, m.skid, m.mac[1], m.mac[2]>> \in r.s.macs \cup st[p].macs
+                                         /\ (r.plain # NoText \/ \E i \in DOMAIN r.evs : r.evs[i] = "msg:LogHeartbeatReceived")
+                                      THEN @ \cup {m.mac} ELSE @]
        /\ delivered' = [delivered EXCEPT ![p] = IF r.plain # NoText THEN Append(@, <<r.plain, ~Unflagged(r)>>) ELSE @]
        /\ rejects' = IF m.t = "D" /\ (r.err \/ \E i \in DOMAIN r.evs : r.evs[i] = "msg:ReceivedMessageUnreadable")
                      THEN rejects + 1 ELSE rejects
-       /\ UNCHANGED <<nt, accepted>>
+       /\ UNCHANGED <<nt, nsend, accepted>>
 
 \* FIFO delivery of the head of p's queue
 Deliver(p) ==
@@ -88,85 +110,107 @@ Deliver(p) ==
 
 UserSend(p) ==
   /\ phase = "free"
-  /\ Len(SelectSeq(path, LAMBDA s : s.a = "Send" /\ s.p = p)) < MaxSend
+  /\ nsend[p] < MaxSend
   /\ Len(net[Other(p)]) < MaxFlight
   /\ LET r == Send(st[p], nt + 1)
      IN /\ Effect(p, r, [a |-> "Send", p |-> p, t |-> nt + 1], net[p])
         /\ nt' = nt + 1
+        /\ nsend' = [nsend EXCEPT ![p] = @ + 1]
         /\ accepted' = [accepted EXCEPT ![p] = IF st[p].ms = "enc" /\ ~r.err THEN Append(@, nt + 1) ELSE @]
-  /\ UNCHANGED <<phase, budget, delivered, rejects>>
+  /\ UNCHANGED <<phase, pc, budget, delivered, rejects, used>>
 
 UserQuery(p) ==
   /\ phase = "free" /\ budget.query > 0 /\ OTREnabled(st[p])
   /\ Effect(p, Query(st[p]), [a |-> "Query", p |-> p], net[p])
   /\ budget' = [budget EXCEPT !.query = @ - 1]
-  /\ UNCHANGED <<phase, nt, delivered, accepted, rejects>>
+  /\ UNCHANGED <<phase, pc, nt, nsend, delivered, accepted, rejects, used>>
 
 UserEnd(p) ==
   /\ phase = "free" /\ budget.end > 0
   /\ Effect(p, End(st[p]), [a |-> "End", p |-> p], net[p])
   /\ budget' = [budget EXCEPT !.end = @ - 1]
-  /\ UNCHANGED <<phase, nt, delivered, accepted, rejects>>
+  /\ UNCHANGED <<phase, pc, nt, nsend, delivered, accepted, rejects, used>>
 
 UserTick(p) ==
   /\ phase = "free" /\ budget.tick > 0
   /\ ~(st[p].hb /\ ~st[p].rstep /\ ~st[p].renc)
   /\ Effect(p, Tick(st[p]), [a |-> "Tick", p |-> p], net[p])
   /\ budget' = [budget EXCEPT !.tick = @ - 1]
-  /\ UNCHANGED <<phase, nt, delivered, accepted, rejects>>
+  /\ UNCHANGED <<phase, pc, nt, nsend, delivered, accepted, rejects, used>>
 
 UserExtra(p) ==
   /\ phase = "free" /\ budget.extra > 0 /\ st[p].ms = "enc"
   /\ Len(net[Other(p)]) < MaxFlight
   /\ Effect(p, ExtraKey(st[p]), [a |-> "ExtraKey", p |-> p], net[p])
   /\ budget' = [budget EXCEPT !.extra = @ - 1]
-  /\ UNCHANGED <<phase, nt, delivered, accepted, rejects>>
+  /\ UNCHANGED <<phase, pc, nt, nsend, delivered, accepted, rejects, used>>
 
-\* deterministic handshake used as set-up: A's user sends the query, then
-\* deliveries alternate until the network is quiet
-SetupStep ==
+\* The prelude: a fixed sequence of user steps (the start pattern of a scenario),
+\* optionally followed by alternating deliveries until the network is quiet.
+PreludeStep ==
   /\ phase = "setup"
-  /\ IF path = <<>> THEN
-       /\ Effect("A", Query(st["A"]), [a |-> "Query", p |-> "A"], net["A"])
-       /\ UNCHANGED <<phase, budget, nt, delivered, accepted, rejects>>
-     ELSE IF net["B"] # <<>> THEN Deliver("B")
-     ELSE IF net["A"] # <<>> THEN Deliver("A")
+  /\ IF pc <= Len(Prelude) THEN
+       LET s == Prelude[pc]
+           p == s.p
+       IN /\ pc' = pc + 1
+          /\ CASE s.a = "Query" -> /\ Effect(p, Query(st[p]), [a |-> "Query", p |-> p], net[p])
+                                     /\ UNCHANGED <<phase, budget, nt, nsend, delivered, accepted, rejects, used>>
+               [] s.a = "Send" -> LET r == Send(st[p], nt + 1)
+                                  IN /\ Effect(p, r, [a |-> "Send", p |-> p, t |-> nt + 1], net[p])
+                                     /\ nt' = nt + 1
+                                     /\ accepted' = [accepted EXCEPT ![p] = IF st[p].ms = "enc" /\ ~r.err THEN Append(@, nt + 1) ELSE @]
+                                     /\ UNCHANGED <<phase, budget, nsend, delivered, rejects, used>>
+               [] s.a = "Tick" -> /\ Effect(p, Tick(st[p]), [a |-> "Tick", p |-> p], net[p])
+                                  /\ UNCHANGED <<phase, budget, nt, nsend, delivered, accepted, rejects, used>>
+               [] s.a = "End" -> /\ Effect(p, End(st[p]), [a |-> "End", p |-> p], net[p])
+                                 /\ UNCHANGED <<phase, budget, nt, nsend, delivered, accepted, rejects, used>>
+               [] s.a = "Err" -> \* the peer's client sends an OTR error message to p
+                                 /\ net' = [net EXCEPT ![p] = Append(@, ErrorMsg)]
+                                 /\ path' = IF Export THEN Append(path, [a |-> "Err", p |-> p]) ELSE path
+                                 /\ UNCHANGED <<st, nx, nt, nsend, phase, budget, delivered, accepted, rejects, evlog, used, disclosedEver, leaks, txlog>>
+               [] s.a = "Deliver" -> /\ net[p] # <<>>
+                                     /\ DeliverMsg(p, Head(net[p]), Tail(net[p]), 0, "Deliver")
+                                     /\ UNCHANGED <<phase, budget>>
+     ELSE IF PreludeDrain /\ net["B"] # <<>> THEN Deliver("B") /\ pc' = pc
+     ELSE IF PreludeDrain /\ net["A"] # <<>> THEN Deliver("A") /\ pc' = pc
      ELSE /\ phase' = "free"
-          /\ UNCHANGED <<st, net, nx, nt, budget, delivered, accepted, rejects, evlog, path>>
+          /\ UNCHANGED <<st, net, nx, nt, nsend, pc, budget, delivered, accepted, rejects, evlog, used, disclosedEver, leaks, txlog, path>>
 
 \* "bag" network: the attacker picks any message in flight, may duplicate or drop
 DeliverAny(p) ==
   /\ NetMode = "bag" /\ phase = "free"
   /\ \E i \in DOMAIN net[p] :
        DeliverMsg(p, net[p][i], [j \in 1..(Len(net[p]) - 1) |-> IF j < i THEN net[p][j] ELSE net[p][j + 1]], i - 1, "DeliverAt")
-  /\ UNCHANGED <<phase, budget>>
+  /\ UNCHANGED <<phase, pc, budget>>
 
 Duplicate(p) ==
   /\ NetMode = "bag" /\ phase = "free" /\ budget.dup > 0
   /\ \E i \in DOMAIN net[p] :
        DeliverMsg(p, net[p][i], net[p], i - 1, "DupAt")
   /\ budget' = [budget EXCEPT !.dup = @ - 1]
-  /\ UNCHANGED phase
+  /\ UNCHANGED <<phase, pc>>
 
 Drop(p) ==
   /\ NetMode = "bag" /\ phase = "free" /\ budget.drop > 0
   /\ net[p] # <<>>
   /\ net' = [net EXCEPT ![p] = Tail(@)]
   /\ budget' = [budget EXCEPT !.drop = @ - 1]
-  /\ path' = Append(path, [a |-> "Drop", p |-> p])
-  /\ UNCHANGED <<st, nx, nt, phase, delivered, accepted, rejects, evlog>>
+  /\ path' = IF Export THEN Append(path, [a |-> "Drop", p |-> p]) ELSE path
+  /\ UNCHANGED <<st, nx, nt, nsend, pc, phase, delivered, accepted, rejects, evlog, used, disclosedEver, leaks, txlog>>
+
+FreeDeliver(p) == phase = "free" /\ NetMode = "fifo" /\ Deliver(p) /\ pc' = pc
 
 Next ==
-  \/ SetupStep
+  \/ PreludeStep
   \/ \E p \in Parties :
-       \/ (phase = "free" /\ NetMode = "fifo" /\ Deliver(p))
+       \/ FreeDeliver(p)
        \/ UserSend(p) \/ UserQuery(p) \/ UserEnd(p) \/ UserTick(p) \/ UserExtra(p)
        \/ DeliverAny(p) \/ Duplicate(p) \/ Drop(p)
 
 Spec == Init /\ [][Next]_vars
 
 \* Liveness needs fair deliveries only (users may stop at any time)
-FairSpec == Spec /\ WF_vars(\E p \in Parties : Deliver(p)) /\ WF_vars(SetupStep)
+FairSpec == Spec /\ WF_vars(\E p \in Parties : FreeDeliver(p)) /\ WF_vars(PreludeStep)
 
 \* schedule export: one line per generated transition
 Emit == Export => PrintT(<<"SCHED", ToJson(path')>>)
@@ -202,6 +246,12 @@ WireDisclosedRetired ==
   \A p \in Parties : \A i \in DOMAIN net[p] :
      LET m == net[p][i] IN (m.t = "D" /\ st[Other(p)].ms = "enc") => m.discl \cap LiveRecvKeys(st[Other(p)]) = {}
 
+\* C09, second half: a receiving MAC key that verified a message is live, pending or was disclosed
+UsedThenDisclosed ==
+  \A p \in Parties : st[p].ms = "enc" =>
+     \A k \in used[p] : k \in LiveRecvKeys(st[p]) \/ k \in st[p].pend \/ k \in disclosedEver[p]
+                          \/ \E e \in st[p].macs : <<e[3], e[4]>> = k
+
 \* C19: retained state is bounded
 SizeBound ==
   \A p \in Parties : st[p].ms = "enc" =>
@@ -212,6 +262,11 @@ SizeBound ==
 \* C18: encrypted exactly between GoneSecure and GoneInsecure
 LastSec(p) == IF evlog[p] = <<>> THEN "none" ELSE evlog[p][Len(evlog[p])]
 EncryptedExactly == \A p \in Parties : (st[p].ms = "enc") <=> (LastSec(p) \in {"sec:GoneSecure", "sec:StillSecure"})
+
+\* C03: no user text in clear when encryption is due
+NoLeak == leaks = 0
+\* C18: every text is transmitted at most once, plus at most one resend
+TransmitOnce == \A i, j \in DOMAIN txlog : i # j => txlog[i] # txlog[j]
 
 \* C07: the key exchange completes
 BothEncrypted == /\ st["A"].ms = "enc" /\ st["B"].ms = "enc"
